@@ -22,7 +22,7 @@ TNext ==
     \/ Is("step") /\ P_StepBegin
     \/ Is("turn") /\ P_Turn(E.h, E.inc, E.got, E.res)
     \/ TCmd
-    \/ Is("step_end") /\ P_StepEnd(E.polls, E.sent)
+    \/ Is("step_end") /\ P_StepEnd(E.polls, E.sent, E.okc)
     \/ Is("crash") /\ P_Crash(E.h, E.obs)
     \/ Is("bounce") /\ P_Bounce(E.h, E.obs)
     \/ Is("setlat") /\ P_SetLat(E.v)
